@@ -16,6 +16,9 @@
 //	rel{v,m,r}      validator v (1-based) returns r (0 Accept, 1 Reject, 2 Ignore, other = out of range) for m
 //	adv{tv:[{v,m,r}]} let the validator timeout pass; running validators with a timeout return tv's verdicts
 //	pub{m}          Topic.Publish of the payload of m on its own goroutine; the return value is logged when it returns
+//	badd{m} / bpub  Topic.AddToBatch of the payload of m (own goroutine, return value logged) / PubSub.PublishBatch of that batch
+//	held{acts}      park the event loop, perform the inner bpub / rel actions, release the loop: one step
+//	down{p}         forwarder p disconnects (its score record is retained: "pen" entries carry "c": connected)
 //	block{m} / unblock{m}   park / release a validation worker
 //	hb              cross one heartbeat
 //
@@ -255,7 +258,7 @@ func runScenario(t *testing.T, out *vh.Out, idx int, s scenario) {
 		if twoTopics {
 			topics = append(topics, topic2Name)
 		}
-		wc := world.Config{Router: router, Score: true, Hosts: 7, Opts: opts,
+		wc := world.Config{Router: router, Score: true, Hosts: 7, Opts: opts, Retain: time.Hour,
 			TopicScore: map[string]*pubsub.TopicScoreParams{topicName: tsp(), topic2Name: tsp()},
 			Thresholds: &pubsub.PeerScoreThresholds{GossipThreshold: -1e9, PublishThreshold: -2e9, GraylistThreshold: -3e9,
 				AcceptPXThreshold: 1e9, OpportunisticGraftThreshold: 0}}
@@ -314,7 +317,8 @@ func runScenario(t *testing.T, out *vh.Out, idx int, s scenario) {
 				sort.Strings(names)
 				for _, n := range names {
 					if ps, ok := st.GS.Score.Peers[w.Fakes[n].ID()]; ok {
-						pen = append(pen, M{"p": n, "n": int(ps.Topics[topicName].InvalidMessageDeliveries + ps.Topics[topic2Name].InvalidMessageDeliveries)})
+						// "c": false = the peer has left and this is its RETAINED record
+						pen = append(pen, M{"p": n, "c": ps.Connected, "n": int(ps.Topics[topicName].InvalidMessageDeliveries + ps.Topics[topic2Name].InvalidMessageDeliveries)})
 					}
 				}
 			}
@@ -390,10 +394,101 @@ func runScenario(t *testing.T, out *vh.Out, idx int, s scenario) {
 		w.Guard()
 		w.Emit(M{"a": "setup"})
 
+		batch := &pubsub.MessageBatch{}
 		for _, a := range s.Acts {
 			kind, _ := a["a"].(string)
 			m, _ := a["m"].(string)
 			switch kind {
+			case "down":
+				// the forwarder's connection closes; its (non-positive) score record is retained
+				p, _ := a["p"].(string)
+				w.Do(M{"a": "down", "p": p})
+			case "badd":
+				// Topic.AddToBatch on its own goroutine (the validators run on the caller's goroutine)
+				w.Guard()
+				d.wg.Add(1)
+				go func() {
+					defer d.wg.Done()
+					err := handles[topicOf(m)].AddToBatch(w.Ctx, batch, payload(m))
+					select {
+					case <-d.done:
+						return
+					default:
+					}
+					es := ""
+					if err != nil {
+						es = err.Error()
+					}
+					d.mu.Lock()
+					d.pret = append(d.pret, M{"m": m, "err": es, "api": "badd", "t": hnet.NowMs()})
+					d.mu.Unlock()
+				}()
+				hnet.Settle(15 * time.Millisecond)
+				w.Emit(M{"a": "badd", "m": m})
+			case "held":
+				// the event loop is parked by a blocking eval thunk while the inner actions run (PublishBatch requests stay
+				// pending in front of it; gate releases let a parked AddToBatch finish); no line can be emitted meanwhile
+				// (the snapshot needs the loop), so the whole sequence is ONE step
+				w.Guard()
+				release := make(chan struct{})
+				entered := make(chan struct{})
+				d.wg.Add(1)
+				go func() {
+					defer d.wg.Done()
+					w.NUT.VerifEval(func() {
+						close(entered)
+						select {
+						case <-release:
+						case <-d.done:
+						}
+					})
+				}()
+				<-entered
+				inner := []M{}
+				if l, ok := a["acts"].([]any); ok {
+					for _, x := range l {
+						ia, _ := x.(map[string]any)
+						switch ia["a"] {
+						case "bpub":
+							err := w.NUT.PublishBatch(batch)
+							es := ""
+							if err != nil {
+								es = err.Error()
+							}
+							d.mu.Lock()
+							d.pret = append(d.pret, M{"m": "", "err": es, "api": "bpub", "t": hnet.NowMs()})
+							d.mu.Unlock()
+							inner = append(inner, M{"a": "bpub"})
+						case "rel":
+							v, r, im := geti(ia, "v", 0), geti(ia, "r", 0), gets(ia, "m", "")
+							g := d.gate(v, im)
+							d.mu.Lock()
+							g.verdict = r
+							if !g.open {
+								g.open = true
+								close(g.ch)
+							}
+							d.mu.Unlock()
+							inner = append(inner, M{"a": "rel", "v": v, "m": im, "r": r})
+						}
+						hnet.Settle(5 * time.Millisecond)
+					}
+				}
+				close(release)
+				hnet.Settle(15 * time.Millisecond)
+				w.Emit(M{"a": "held", "acts": inner})
+			case "bpub":
+				w.Guard()
+				err := w.NUT.PublishBatch(batch)
+				es := ""
+				if err != nil {
+					es = err.Error()
+				}
+				d.mu.Lock()
+				d.pret = append(d.pret, M{"m": "", "err": es, "api": "bpub", "t": hnet.NowMs()})
+				d.mu.Unlock()
+				hnet.Settle(15 * time.Millisecond)
+				w.Emit(M{"a": "bpub"})
 			case "msg":
 				p, _ := a["p"].(string)
 				w.Do(M{"a": "msg", "p": p, "t": topicOf(m), "m": m, "unsigned": !signed})
@@ -480,7 +575,7 @@ func runScenario(t *testing.T, out *vh.Out, idx int, s scenario) {
 						es = err.Error()
 					}
 					d.mu.Lock()
-					d.pret = append(d.pret, M{"m": m, "err": es, "t": hnet.NowMs()})
+					d.pret = append(d.pret, M{"m": m, "err": es, "api": "pub", "t": hnet.NowMs()})
 					d.mu.Unlock()
 				}()
 				hnet.Settle(15 * time.Millisecond)
